@@ -9,7 +9,7 @@ class OversamplingWrapper(KDSubset):
     def __init__(self, dataset, mode="multiply"):
         self.mode = mode
 
-        classes = getall_as_tensor(dataset)
+        classes = getall_as_tensor(dataset).long()
         class_counts, _ = get_class_counts(classes, dataset.getdim_class())
         max_class_count = torch.max(class_counts).item()
         indices = torch.arange(len(dataset), dtype=torch.long)
